@@ -226,11 +226,15 @@ check("C08",
       "(unknown_keyword_rejected, foreign_mode_keyword_rejected, computed_variables_not_settable, duplicate_rejected, missing_required_rejected, wrong_type_rejected, "
       "lexer_error_rejected, timeout_value); booleans are 1/0, lists join with single spaces, timeouts are seconds (boolean_keyword, list_value, timeout_value); the "
       "k-th ${rdomain} reference is 11 + k mod 245, successive ones differ (rdomain_cycle, rdomain_successive_distinct, find_rdomain); the accepted keywords differ "
-      "from the documented ones exactly by skip (robsd-regress) and robsddir (canvas) (undocumented_keywords, documented_are_accepted). Correspondence: every "
+      "from the documented ones exactly by skip (robsd-regress) and robsddir (canvas) (undocumented_keywords, documented_are_accepted). Completeness at the token "
+      "level for the value keywords (C08Complete): every list of statements keyword+value whose shape is what the generated table gives the keyword (yes/no, number, "
+      "string, { list }, existing user, existing directory), with distinct keywords in ANY order, is accepted and leaves exactly one variable per statement "
+      "(complete_tokens); ${name} is the configured value (value_configured), the table's default when not given (value_default); the file validates iff all "
+      "required keywords are among the statements (accepted_iff_required). Correspondence: every "
       "generated configuration (five modes, every settable keyword, shuffled order, comments/whitespace, 1-17 regress entries with all options, 1-17 steps, lock "
       "file or not) and every single-edit corruption goes through the real robsd-config with a template asking for all variables; exit status and stdout are "
       "compared with Conf.configCmd on the same bytes and with the generator's own expectation.",
-      "Partial: `complete` (every text derivable from the documented grammar is accepted with every variable at its configured value) is not proved as a theorem; "
-      "it is what the generator + correspondence sample. glob(3), getpwnam(3), stat(2), MACHINE/MACHINE_ARCH and the egress addresses are parameters of the model; "
+      "Partial: completeness is proved at the token level for the value keywords only; for regress/step statements with option words, glob keywords and for the "
+      "lexer (text -> tokens, whitespace and comment layout) acceptance of every grammar-derived text is what the generator + correspondence sample. glob(3), getpwnam(3), stat(2), MACHINE/MACHINE_ARCH and the egress addresses are parameters of the model; "
       "-v var=val is not modelled. Known findings: skip / robsddir accepted but undocumented. Trusted: Lean kernel; translator; harness; ASan.",
       "DESIGN.md#c08")
